@@ -140,9 +140,12 @@ def run(ctx):
                                          maxrows=30, bias="grow") for i, k in enumerate([10, 14] if ctx.quick() else [10, 11, 12, 14, 18])])   # (CREATE TABLE alone dirties up to 9 three-cell pages)
         cov["store_level_write_faults"] = dict(runs=agg["runs"], statements=agg["statements"], flushes=agg["flushes"],
                                                flushes_failed=agg.get("flushes_failed", 0), clean_pages_evicted_after=agg.get("evicted_after_failed_flush", 0),
-                                               cache_full_statements=agg.get("cachefull_statements_restarted", 0))
+                                               cache_full_statements=agg.get("cachefull_statements_restarted", 0),
+                                               read_fault_rounds=agg.get("read_fault_rounds", 0))
         if not agg.get("flushes_failed") and not ctx.violations:
             raise vlib.Undecided("vacuous: no flush with a failing page write was run")
+        if not agg.get("read_fault_rounds") and not ctx.violations:
+            raise vlib.Undecided("vacuous: no round of failing page reads was run")
     finally:
         spool.close()
     vlib.write_evidence(ctx, "model_checking", cov, assumptions=[
